@@ -1,10 +1,26 @@
-// seqw is the worker for the sequential (seqx) checks: native build of the
-// library (tag verif), one goroutine driving scripted transports.
+// Command seqw is the worker of the sequential engine (native build, tag verif).
 package main
 
 import (
+	"runtime"
+	"runtime/debug"
+
 	_ "verif/checks/seq"
 	"verif/fw"
 )
 
-func main() { fw.Main() }
+func main() {
+	// The garbage collector empties sync.Pools, so when it runs decides which path of the
+	// library's pools (cold or warm) a case takes: nondeterminism the enumeration does not
+	// own. The worker therefore collects only at fixed points: between cases (every 1024th
+	// evaluation) and where a case asks for it (cases with cold pools run the collector
+	// themselves). The memory limit is a safety net, not a schedule.
+	// sync.Pool is per P: a goroutine that moves to another P does not see what it Put a
+	// moment ago. One P makes every pool a LIFO stack (units are separate processes, so this
+	// costs no parallelism).
+	runtime.GOMAXPROCS(1)
+	debug.SetGCPercent(-1)
+	debug.SetMemoryLimit(2 << 30)
+	fw.EvalHook = func() { runtime.GC() }
+	fw.Main()
+}
